@@ -35,6 +35,8 @@ D7 (K5) the parent handed to tt.adjust_path is ROOT_PARENT or _parent_trans_id(w
 in the tree whose parent won.
 D8 methods of the merger that take a tree argument keep no table on the merger keyed by their other arguments alone
 (the same path can name different directories in THIS, BASE and OTHER).
+D9 (third round) PerFileMerger.merge_contents: under `params.winner == "other"` no path reaches merge_matching / merge_text —
+   per-file hooks are consulted only when both sides changed the file.
 Does not decide: the laws over whole trees (tree values), text merging (C19), the entry generators _entries3/_entries_lca.
 """
 
@@ -163,7 +165,20 @@ def run(ctx):
         ctx.check("D8-memo-key-names-the-tree", f"{MG}:{M}.{item.name}", not bad, f"{item.name} keeps no per-merger table keyed by its other arguments without the tree", construct="; ".join(bad), message=f"{M}.{item.name} answers from a table on the merger keyed without its tree argument ({bad}): when the same path names different directories in THIS and OTHER (chained or swapped directory renames) the second tree gets the first one's transform id, and a file added on one side lands in the wrong directory without any conflict")
     ctx.require(n_tree_fns >= 3, f"{MG}:{M}: only {n_tree_fns} methods take a tree argument (hand-confirmed: >= 5)")
 
+    # ---- D9: a straight OTHER win never reaches a per-file merge hook's own algorithm ----------------------------------
+    fh = repo.func(MG, "PerFileMerger.merge_contents")
+    wh = f"{MG}:PerFileMerger.merge_contents"
+    pn = [a.arg for a in fh.args.args][1]
+    gh = build_cfg(fh)
+    own = [i for i in calling(gh, attr="merge_matching", recv="self") + calling(gh, attr="merge_text", recv="self")]
+    need(wh, own, "self.merge_matching(params)")
+    g_other = gh.assume({f"{pn}.winner == 'other'": True, f"{pn}.winner != 'other'": False})
+    hit9 = sorted(set(own) & g_other.reachable_from_entry())
+    na = [n.id for n in gh.nodes if n.kind == "stmt" and isinstance(n.ast, ast.Return) and isinstance(n.ast.value, ast.Tuple) and const_value(n.ast.value.elts[0], None) == "not_applicable"]
+    ctx.check("D9-straight-winner-bypasses-hooks", wh, bool(na) and not hit9, "with params.winner == 'other' the hook answers not_applicable (the default merger takes OTHER's text verbatim)", construct="merge_matching reachable with winner == 'other'", message="PerFileMerger.merge_contents runs the hook's own merge algorithm on a file only OTHER changed: with a per-file merge hook installed (po_merge, news_merge, changelog_merge, any configured merger) the result need not be OTHER's text — 'THIS equals BASE => the tree equals OTHER' fails silently, no conflict")
+
 MUTANTS = [
+    Mutant("per-file hooks consulted on a straight OTHER win", MG, '            params.winner == "other"\n            or\n', '', expect="D9-straight-winner-bypasses-hooks"),
     Mutant("parent transform ids cached by path only", MG, "        if parent_path is None:\n            return None\n        if tree.supports_file_ids:\n", "        if parent_path is None:\n            return None\n        if parent_path in self.__dict__.setdefault(\"_ptids\", {}):\n            return self._ptids[parent_path]\n        if tree.supports_file_ids:\n", expect="D8-memo-key-names-the-tree"),
     Mutant("copies get a name but no content", MG, "                    executable3 = (None, executable3[1], None)\n                    changed = True\n                    copied = False\n", "                    executable3 = (None, executable3[1], None)\n", expect="D6-copy-merged-as-add"),
     Mutant("parent lookups cached by path alone", MG, "                parent_trans_id = self._parent_trans_id(\n                    winning_tree, winning_parent_path\n                )\n            self.tt.adjust_path", "                parent_trans_id = self._cache.get(winning_parent_path) or self._parent_trans_id(\n                    winning_tree, winning_parent_path\n                )\n                parent_trans_id = self._cache.setdefault(winning_parent_path, parent_trans_id)\n            self.tt.adjust_path", expect="D7-parent-resolved-in-winning-tree"),
